@@ -17,7 +17,7 @@ const verifHexTail = "0123456789abcdef0123456789abcdef0123456789abcdef0123456789
 // directories) are arbitrary bytes: either ParseDigest rejects it, or the
 // blob operations of the origin store stay inside the store directories.
 func VerifBlobNameConfined() {
-	t := httputil.KseLayout(true)
+	t := httputil.KseLayout(false)
 	cas, err := store.NewCAStore(store.CAStoreConfig{
 		UploadDir:            t.Dir(0),
 		CacheDir:             t.Dir(1),
